@@ -665,21 +665,7 @@ func c19ContextRestored(c *Check, P, name string, m *MW) {
 			restored = true
 		}
 	})
-	// (b) inline restore after the handler on every path
-	if !restored {
-		ok := true
-		for _, ret := range Returns(I) {
-			last := false
-			for _, s := range body {
-				if isPrev(Arg(s, 0)) && Dominates(I, s, ret) && !reachesAny(ReachAfter(s, nil), body) {
-					last = true
-				}
-			}
-			if !last {
-				ok = false
-			}
-		}
-		restored = ok && len(Returns(I)) > 0
-	}
-	c.Report(restored, P+".O3", "CONTEXT-RESTORED", I, body[0].Pos(), name, "the middleware installs a derived context on the consumed message and restores the previous one on every exit (the message is not left with a cancelled context)")
+	// an inline restore after the call is not enough: it is skipped when the handler panics, and a
+	// Recoverer further out then hands a message with a cancelled context to Retry
+	c.Report(restored, P+".O3", "CONTEXT-RESTORED", I, body[0].Pos(), name, "the middleware installs a derived context on the consumed message and restores the previous one in a defer, i.e. on every exit including a panic of the handler (the message is not left with a cancelled context)")
 }
